@@ -104,6 +104,36 @@ fn brief(e: &Expr) -> &'static str {
         _ => "other",
     }
 }
+/// operand of a connective: operator family, plus `@json` / `@vec` when it reads the JSONB / VECTOR column
+/// (those accessors can produce "no value" inside TurDB's evaluator, a different path from a NULL column)
+fn operand(e: &Expr) -> String {
+    fn marks(e: &Expr, json: &mut bool, vec: &mut bool) {
+        match e {
+            Expr::Lit(V::Other(s)) => {
+                if s.contains("<->") || s.contains("<=>") {
+                    *vec = true;
+                } else if s.contains("->") {
+                    *json = true;
+                }
+            }
+            Expr::Col(c) => {
+                if c.name == "j" {
+                    *json = true;
+                } else if c.name == "e" {
+                    *vec = true;
+                }
+            }
+            o => {
+                for c in o.children() {
+                    marks(c, json, vec);
+                }
+            }
+        }
+    }
+    let (mut j, mut v) = (false, false);
+    marks(e, &mut j, &mut v);
+    format!("{}{}{}", brief(e), if j { "@json" } else { "" }, if v { "@vec" } else { "" })
+}
 fn is_atom(e: &Expr) -> bool {
     match e {
         Expr::And(..) | Expr::Or(..) | Expr::Not(..) => false,
@@ -114,7 +144,7 @@ fn is_atom(e: &Expr) -> bool {
 fn shape(e: &Expr) -> String {
     match e {
         Expr::Cmp(op, a, b) => format!("cmp_{}({},{})", op_name(*op), kind(a), kind(b)),
-        Expr::IsNull(a) | Expr::IsNotNull(a) => format!("{}({})", brief(e), if is_pred(a) { format!("pred:{}", brief(a)) } else { kind(a) }),
+        Expr::IsNull(a) | Expr::IsNotNull(a) => format!("{}({})", brief(e), if is_pred(a) { format!("pred:{}", operand(a)) } else { kind(a) }),
         Expr::In(x, list, _) => format!("{}({},[{}])", brief(e), kind(x), list.iter().map(kind_short).collect::<Vec<_>>().join(",")),
         Expr::Between(x, lo, hi, _) => format!("{}({},{},{})", brief(e), kind(x), kind_short(lo), kind_short(hi)),
         Expr::Like(x, p, _) => format!("{}({},{})", brief(e), kind(x), kind_short(p)),
@@ -125,8 +155,8 @@ fn shape(e: &Expr) -> String {
                 format!("NOT({})", brief(a))
             }
         }
-        Expr::And(a, b) => format!("AND({},{})", brief(a), brief(b)),
-        Expr::Or(a, b) => format!("OR({},{})", brief(a), brief(b)),
+        Expr::And(a, b) => format!("AND({},{})", operand(a), operand(b)),
+        Expr::Or(a, b) => format!("OR({},{})", operand(a), operand(b)),
         o => brief(o).to_string(),
     }
 }
@@ -845,6 +875,13 @@ impl<'a> Run<'a> {
         rep.sample(|| json!({"pass": job.name, "table": job.table, "pred": p.to_sql(), "shape": shape(p), "groups": job.groups}));
     }
     fn trees(&mut self, fx: &Fx, rep: &mut Reporter, job: &Job, atoms: &[Expr], depth: usize) {
+        // development aid: `--opt passes=R4,P4` runs only the passes whose name starts with one of the prefixes
+        if let Some(only) = self.ctx.opt("passes") {
+            if !only.split(',').any(|p| job.name.starts_with(p)) {
+                return;
+            }
+        }
+        let was_expired = self.expired;
         let mut g = Gen::new(atoms);
         let mut total: u128 = 0;
         for d in 0..=depth {
@@ -866,7 +903,9 @@ impl<'a> Run<'a> {
             }
         }
         rep.bound(&format!("pass.{}", job.name), json!({"table": job.table, "atoms": atoms.len(), "depth": depth, "predicates": total.to_string(), "rewrite_groups": job.groups}));
-        if self.expired {
+        if was_expired {
+            rep.capped(&format!("pass {} not run (the deadline was hit in an earlier pass)", job.name));
+        } else if self.expired {
             rep.capped(&format!("deadline inside pass {} (earlier passes are complete; pass.{}.predicates = number done)", job.name, job.name));
         }
     }
